@@ -37,6 +37,69 @@ func TestSim(t *testing.T) { common.Main(t, common.Harness{Property: "C04", Run:
 const maxCall = 70
 
 func craft(run uint64) []uint32 {
+	// stratum: 0 TCP, 1 QUIC only, 2 QUIC and TCP addresses both known (raw values for Weighted(3,2,1))
+	switch run % 3 {
+	case 1:
+		return append([]uint32{3}, craftQUIC(run/3)...)
+	case 2:
+		return append([]uint32{5}, craftQUIC(run/3)...)
+	}
+	return append([]uint32{0}, craftTCP(run/3)...)
+}
+
+// craftQUIC: plan kind (raw for Weighted(1,10,3,4,2,3)), side, plan draws; the background UDP faults and the payload
+// stay with the PRNG.
+func craftQUIC(run uint64) []uint32 {
+	type pos struct{ kind, a, b, c uint32 }
+	var space []pos
+	for dir := uint32(0); dir < 3; dir++ {
+		for k := uint32(0); k < maxDgram; k++ {
+			for l := uint32(0); l < 3; l++ {
+				space = append(space, pos{1, dir, k, l})
+			}
+		}
+	}
+	for h := uint32(0); h < 4; h++ {
+		space = append(space, pos{11, h, 0, 0})
+	}
+	for site := uint32(0); site < uint32(len(rcSites)); site++ {
+		for n := uint32(0); n < 3; n++ {
+			space = append(space, pos{14, site, n, 0})
+		}
+	}
+	for k := uint32(0); k < maxDgram; k++ {
+		space = append(space, pos{18, k, 0, 0})
+	}
+	for tgt := uint32(0); tgt < 5; tgt++ {
+		for k := uint32(0); k < maxDgram; k++ {
+			space = append(space, pos{20, k, tgt, 0})
+		}
+	}
+	n := uint64(len(space))
+	p := space[run%n]
+	onB := uint32((run / n) % 2)
+	out := []uint32{p.kind, onB}
+	switch p.kind {
+	case 1:
+		out = append(out, p.a, p.b, p.c)
+	case 11:
+		if onB == 1 && p.a >= 3 {
+			p.a = 2
+		}
+		out = append(out, p.a)
+	case 14:
+		out = append(out, p.a, p.b)
+	case 18:
+		out = append(out, p.a)
+	case 20:
+		out = append(out, p.a, p.b)
+	}
+	return out
+}
+
+const maxDgram = 60
+
+func craftTCP(run uint64) []uint32 {
 	type pos struct{ kind, a, b uint32 } // kind = raw value for Weighted(1,10,3,4,2,3)
 	var space []pos
 	for io := uint32(0); io < uint32(len(ioKinds)); io++ {
@@ -106,6 +169,12 @@ type plan struct {
 	site   string
 	n      int
 	target int // close target: 0 peer conns on A, 1 listener on B, 2 whole host A, 3 whole host B, 4 peer conns on B
+	// QUIC strata: kind 1 is a blackout of UDP datagrams — direction dir (0 A->B, 1 B->A, 2 both) from the k-th datagram
+	// of the attempt in that direction on, for span datagrams (0 = for the rest of the run); kinds 4 and 5 count the
+	// datagrams sent by the chosen side
+	quic int // 0 TCP, 1 QUIC only, 2 QUIC and TCP addresses known
+	dir  int
+	span int
 }
 
 func (p plan) String() string {
@@ -117,22 +186,35 @@ func (p plan) String() string {
 	case 0:
 		return "no fault"
 	case 1:
+		if p.quic != 0 {
+			return fmt.Sprintf("udp blackout %s from datagram %d for %d (0 = for good)", [...]string{"A->B", "B->A", "both ways"}[p.dir], p.k, p.span)
+		}
 		return fmt.Sprintf("io %s at call %d on %s end", p.io, p.k, side)
 	case 2:
 		return fmt.Sprintf("gater %s rejects %s", side, p.hook)
 	case 3:
 		return fmt.Sprintf("rcmgr %s refuses %s #%d", side, p.site, p.n)
 	case 4:
-		return fmt.Sprintf("cancel ctx at call %d of %s end", p.k, side)
+		return fmt.Sprintf("cancel ctx at call/datagram %d of %s end", p.k, side)
 	case 5:
-		return fmt.Sprintf("close target %d at call %d of %s end", p.target, p.k, side)
+		return fmt.Sprintf("close target %d at call/datagram %d of %s end", p.target, p.k, side)
 	}
 	return "?"
 }
 
 func class(p plan) string {
+	if p.quic != 0 {
+		return [...]string{"", "quic/", "quic+tcp/"}[p.quic] + class0(p)
+	}
+	return class0(p)
+}
+
+func class0(p plan) string {
 	switch p.kind {
 	case 1:
+		if p.quic != 0 {
+			return "udp-blackout"
+		}
 		return "io-" + p.io.String()
 	case 2:
 		return "gater-" + p.hook
@@ -208,6 +290,10 @@ func run(t *testing.T, tape *simrt.Tape) *common.Outcome {
 	g := simrt.Gen{S: tape.G}
 	o := &common.Outcome{}
 
+	quic := g.Weighted(3, 2, 1)
+	if quic != 0 {
+		return runQUIC(t, tape, g, o, quic)
+	}
 	secu := []string{"noise", "tls"}[g.Int(2)]
 	usePSK := g.Chance(1, 4)
 	mode := []simnet.LinkMode{simnet.Whole, simnet.Fragment}[g.Int(2)]
@@ -455,6 +541,14 @@ func run(t *testing.T, tape *simrt.Tape) *common.Outcome {
 			st := rm.(rcmgr.ResourceManagerState).Stat()
 			if st.System.NumStreamsInbound != 0 || st.System.NumStreamsOutbound != 0 || st.Transient.NumStreamsInbound != 0 || st.Transient.NumStreamsOutbound != 0 {
 				o.Violate("C04/streams-left-on-open-connection/"+class(p)+"/"+attemptOutcome, "%s: 3 virtual minutes after the attempt (%s, outcome %s) streams are still charged while the connection is open: system=%+v transient=%+v", nd.name, p, attemptOutcome, st.System, st.Transient)
+			}
+		}
+		// a connection has two ends: three quiet minutes after the attempt (past every keep-alive, idle and
+		// handshake timeout) an end that still exists while the other node has none is a connection that failed or
+		// finished on one side without being closed (for QUIC there is no raw connection whose Close could be audited)
+		if !closedA && !closedB {
+			if na, nb := len(a.Swarm.ConnsToPeer(b.ID)), len(b.Swarm.ConnsToPeer(a.ID)); na != nb {
+				o.Violate("C04/one-sided-connection/"+class(p)+"/"+attemptOutcome, "3 virtual minutes after the attempt (%s, outcome %s) A lists %d connection(s) to B and B lists %d to A", p, attemptOutcome, na, nb)
 			}
 		}
 		closeConns()
